@@ -52,10 +52,11 @@ def run_seed(name, budget_s, tier='quick', verbose=True):
         demo = os.path.join(sdir, 'demo.py')
         if os.path.exists(demo):
             e = dict(os.environ, PYTHONDONTWRITEBYTECODE='1')
+            # (older demos take the tree as argv[1], newer ones rely on PYTHONPATH)
             r0 = subprocess.run([sys.executable, demo, env.repo_dir()], capture_output=True, text=True, timeout=300,
-                                cwd=root, env=e)
+                                cwd=root, env=dict(e, PYTHONPATH=env.repo_dir()))
             r1 = subprocess.run([sys.executable, demo, tree], capture_output=True, text=True, timeout=300,
-                                cwd=root, env=e)
+                                cwd=root, env=dict(e, PYTHONPATH=tree))
             out['demo_clean_rc'] = r0.returncode
             out['demo_patched_rc'] = r1.returncode
             if r0.returncode != 0 or r1.returncode == 0:
